@@ -14,6 +14,12 @@
 //	(status-dec <text>)         (ok <code> <text>)|(err)|(panic)
 //	(status-text <code>)        <text>                                                     http.StatusText
 //
+//	(civil <secs>)              (<y> <m> <d> <h> <mi> <s> <weekday>)                        time.Unix(secs,0).UTC() fields
+//	(time-rt <secs> <off>)      (<text> (ok <secs> <nsec>)|(err)|(panic))                  internal.Time Marshal/UnmarshalText, instant given in zone off
+//	(time-dec <text>)           (ok <secs> <nsec>)|(err)|(panic)
+//	(ical-rt <secs> <off>)      likewise for caldav.dateWithUTCTime
+//	(ical-dec <text>)
+//
 // Stages (-stage): small (Depth, Overwrite, status line), ... ; -replay re-executes
 // the inputs of the given case lines whatever their stage.
 package main
@@ -32,6 +38,7 @@ import (
 	"time"
 
 	webdav "github.com/emersion/go-webdav"
+	"github.com/emersion/go-webdav/caldav"
 	"github.com/emersion/go-webdav/verifhook"
 
 	"verifharness/hx"
@@ -209,6 +216,61 @@ func statusE2E(code int64, text string) string {
 	})
 }
 
+// ---------------------------------------------------------------- instants
+
+func timeObs(t time.Time, err error) string {
+	if err != nil {
+		return obsErr()
+	}
+	return hx.L("ok", hx.I(t.Unix()), hx.I(int64(t.Nanosecond())))
+}
+
+func inZone(secs, off int64) time.Time {
+	return time.Unix(secs, 0).In(time.FixedZone("", int(off)))
+}
+
+func timeDecObs(text string) string {
+	return guard(func() string {
+		var t verifhook.Time
+		err := t.UnmarshalText([]byte(text))
+		return timeObs(time.Time(t), err)
+	})
+}
+
+func timeRT(secs, off int64) string {
+	return guard(func() string {
+		t := verifhook.Time(inZone(secs, off))
+		b, err := t.MarshalText()
+		if err != nil {
+			return obsErr()
+		}
+		return hx.L(hx.S(string(b)), timeDecObs(string(b)))
+	})
+}
+
+func icalDecObs(text string) string {
+	return guard(func() string {
+		t, err := caldav.VerifUnmarshalDateWithUTCTime([]byte(text))
+		return timeObs(t, err)
+	})
+}
+
+func icalRT(secs, off int64) string {
+	return guard(func() string {
+		b, err := caldav.VerifMarshalDateWithUTCTime(inZone(secs, off))
+		if err != nil {
+			return obsErr()
+		}
+		return hx.L(hx.S(string(b)), icalDecObs(string(b)))
+	})
+}
+
+func civilObs(secs int64) string {
+	t := time.Unix(secs, 0).UTC()
+	return hx.L(hx.I(int64(t.Year())), hx.I(int64(t.Month())), hx.I(int64(t.Day())), hx.I(int64(t.Hour())),
+		hx.I(int64(t.Minute())), hx.I(int64(t.Second())), hx.I(int64(t.Weekday())))
+}
+
 // ---------------------------------------------------------------- dispatch
 
 func exec(in string) string {
@@ -241,6 +303,16 @@ func exec(in string) string {
 		obs = statusUnmarshalObs(a[0].Str())
 	case "status-text":
 		obs = hx.S(http.StatusText(int(a[0].Int())))
+	case "civil":
+		obs = civilObs(a[0].Int())
+	case "time-rt":
+		obs = timeRT(a[0].Int(), a[1].Int())
+	case "time-dec":
+		obs = timeDecObs(a[0].Str())
+	case "ical-rt":
+		obs = icalRT(a[0].Int(), a[1].Int())
+	case "ical-dec":
+		obs = icalDecObs(a[0].Str())
 	default:
 		panic("harness: unknown case " + in)
 	}
@@ -378,6 +450,197 @@ func genSmall(emit func(string), r *hx.Rand, thorough bool) {
 	}
 }
 
+// unix seconds of a UTC civil time
+func ux(y int, m time.Month, d, h, mi, s int) int64 {
+	return time.Date(y, m, d, h, mi, s, 0, time.UTC).Unix()
+}
+
+const (
+	minSecs = -62167219200 // 0000-01-01T00:00:00Z
+	maxSecs = 253402300799 // 9999-12-31T23:59:59Z
+)
+
+func boundaryInstants() []int64 {
+	var out []int64
+	add := func(t int64) { out = append(out, t-1, t, t+1) }
+	add(minSecs)
+	add(maxSecs)
+	add(0)
+	add(1 << 31)
+	add(-(1 << 31))
+	add(1 << 32)
+	add(ux(1, 1, 1, 0, 0, 0))
+	add(-62135596800)
+	for _, y := range []int{0, 1, 4, 99, 100, 101, 399, 400, 401, 1000, 1582, 1600, 1699, 1700, 1900, 1969, 1970, 1999, 2000, 2001, 2004, 2023, 2024, 2038, 2068, 2069, 2100, 2400, 4000, 8000, 9600, 9996, 9999} {
+		add(ux(y, 1, 1, 0, 0, 0))
+		add(ux(y, 3, 1, 0, 0, 0))  // the second before is Feb 28 or 29
+		add(ux(y, 2, 28, 12, 0, 0))
+		add(ux(y, 12, 31, 23, 59, 59))
+		for m := time.Month(1); m <= 12; m++ {
+			out = append(out, ux(y, m, 1, 0, 0, 0), ux(y, m, 15, 9, 8, 7))
+		}
+	}
+	return out
+}
+
+func randInstant(r *hx.Rand) int64 {
+	return minSecs + int64(r.U64()%uint64(maxSecs-minSecs+1))
+}
+
+func genDate(emit func(string), r *hx.Rand, thorough bool) {
+	var offs []int64
+	for o := int64(-12 * 3600); o <= 14*3600; o += 900 {
+		offs = append(offs, o)
+	}
+	bs := boundaryInstants()
+	for _, t := range bs {
+		emit(hx.L("civil", hx.I(t)))
+		for _, o := range offs {
+			if !thorough && r.Intn(6) != 0 {
+				continue
+			}
+			emit(hx.L("time-rt", hx.I(t), hx.I(o)))
+			emit(hx.L("ical-rt", hx.I(t), hx.I(o)))
+		}
+	}
+	n := 12000
+	if thorough {
+		n = 400000
+	}
+	for i := 0; i < n; i++ {
+		t := randInstant(r)
+		o := offs[r.Intn(len(offs))]
+		if r.Intn(8) == 0 {
+			o = int64(r.Intn(26*3600+1)) - 12*3600 // any second offset
+		}
+		emit(hx.L("civil", hx.I(t)))
+		emit(hx.L("time-rt", hx.I(t), hx.I(o)))
+		emit(hx.L("ical-rt", hx.I(t), hx.I(o)))
+	}
+	// outside the domain of the property (years < 0 or > 9999): model agreement only
+	for i := 0; i < n/20; i++ {
+		var t int64
+		if r.Bool() {
+			t = maxSecs + 1 + int64(r.U64()%uint64(1<<40))
+		} else {
+			t = minSecs - 1 - int64(r.U64()%uint64(1<<40))
+		}
+		emit(hx.L("civil", hx.I(t)))
+		emit(hx.L("time-rt", hx.I(t), hx.I(offs[r.Intn(len(offs))])))
+		emit(hx.L("ical-rt", hx.I(t), hx.I(offs[r.Intn(len(offs))])))
+	}
+
+	// decoders: valid texts of every accepted form, their one-edit neighbours, hand-made leniencies, random texts
+	httpValid := []string{}
+	icalValid := []string{}
+	sample := []int64{0, 1136214245, ux(2024, 2, 29, 23, 59, 59), ux(1999, 12, 31, 0, 0, 0), ux(2068, 6, 9, 4, 5, 6), ux(1969, 7, 20, 20, 17, 40), minSecs, maxSecs, ux(2000, 3, 1, 7, 0, 9)}
+	for i := 0; i < 12; i++ {
+		sample = append(sample, randInstant(r))
+	}
+	for _, t := range sample {
+		u := time.Unix(t, 0).UTC()
+		httpValid = append(httpValid, u.Format(http.TimeFormat))
+		if u.Year() >= 1969 && u.Year() <= 2068 {
+			httpValid = append(httpValid, u.Format(time.RFC850))
+			httpValid = append(httpValid, u.Format("Monday, 02-Jan-06 15:04:05 GMT"))
+		}
+		httpValid = append(httpValid, u.Format(time.ANSIC))
+		icalValid = append(icalValid, u.Format("20060102T150405Z"))
+	}
+	lenient := []string{"Mon, 02 Jan 2006 5:04:05 GMT", "mon, 02 jan 2006 15:04:05 GMT", "MON, 02 JAN 2006 15:04:05 GMT", "Tue, 02 Jan 2006 15:04:05 GMT",
+		"Mon, 02 Jan 2006 15:04:05.5 GMT", "Mon, 02 Jan 2006 15:04:05,123456789123 GMT", "Mon,   02 Jan 2006 15:04:05 GMT", "Mon, 02 Jan 2006 15:04:05  GMT",
+		"Monday, 02-Jan-06 15:04:05 PST", "Monday, 02-Jan-+5 15:04:05 GMT", "Monday, 02-Jan--5 15:04:05 GMT", "Monday, 02-Jan-06 15:04:05 GMT+3", "Monday, 02-Jan-06 15:04:05 GMT+24",
+		"Monday, 02-Jan-06 15:04:05 GMT-", "Monday, 02-Jan-06 15:04:05 +03", "Monday, 02-Jan-06 15:04:05 -2", "Monday, 02-Jan-06 15:04:05 +", "Monday, 02-Jan-06 15:04:05 UTC",
+		"Monday, 02-Jan-06 15:04:05 ChST", "Monday, 02-Jan-06 15:04:05 MeST", "Monday, 02-Jan-06 15:04:05 ABCDT", "Monday, 02-Jan-06 15:04:05 ABCD", "Monday, 02-Jan-06 15:04:05 WITA",
+		"Monday, 02-Jan-06 15:04:05 ABCDEF", "Monday, 02-Jan-06 15:04:05 AB", "Monday, 02-Jan-06 15:04:05 ABCDE", "Monday, 02-Jan-06 15:04:05 UTCx", "Monday, 02-Jan-06 15:04:05 GMT ",
+		"Mon Jan 2 15:04:05 2006", "Mon Jan  2 15:04:05 2006", "Mon Jan 02 15:04:05 2006", "Mon Jan   2 15:04:05 2006", "Mon  Jan  2 15:04:05 2006", "Mon Jan  2 15:04:05 2006 ",
+		"Mon, 31 Feb 2006 15:04:05 GMT", "Mon, 29 Feb 2023 15:04:05 GMT", "Mon, 29 Feb 2024 15:04:05 GMT", "Mon, 00 Jan 2006 15:04:05 GMT", "Mon, 32 Jan 2006 15:04:05 GMT",
+		"Mon, 02 Jan 2006 15:04:60 GMT", "Mon, 02 Jan 2006 24:00:00 GMT", "Mon, 02 Jan 2006 23:60:00 GMT", "Mon, 02 Jan 2006 15:04:05 GMT ", "Mon, 02 Jan 2006 15:04:05GMT",
+		"Mon, 02 Jan 2006 15:04:05 gmt", "Mon, 02 Jan 2006 15:04:05 UTC", "Mon, 02 Jan 2006 15:04:05", "Mon, 2 Jan 2006 15:04:05 GMT", "Mon, 02 Jan 06 15:04:05 GMT",
+		"Mon, 02 Jan 0000 00:00:00 GMT", "Mon, 02 Jan 9999 23:59:59 GMT", "Mon, 02 Jan 10000 00:00:00 GMT", "Monday, 02 Jan 2006 15:04:05 GMT", "Mon, 02-Jan-2006 15:04:05 GMT",
+		"Mond, 02 Jan 2006 15:04:05 GMT", "Sunday, 06-Nov-94 08:49:37 GMT", "Sun, 06 Nov 1994 08:49:37 GMT", "Sun Nov  6 08:49:37 1994", "", " ", "GMT", "0", "Mon",
+		"Mon, 02 Jan 2006 15:04:05. GMT", "Mon, 02 Jan 2006 15:04:05.x GMT", "Mon, 02 Jan 2006 15:04:05.1234567891 GMT", "Mon, 02 Jan 2006 15:04:5 GMT", "Mon, 02 Jan 2006 15:4:05 GMT"}
+	icalHand := []string{"20060102T150405Z", "20060102T150405.5Z", "20060102T150405,5Z", "20060102T90405Z", "20060102T240000Z", "20060230T000000Z", "00000101T000000Z",
+		"20060102T150405z", "20060102T150405", "+0060102T150405Z", "20060102t150405Z", "20060102T150460Z", "20061302T150405Z", "20060002T150405Z", "20060100T150405Z",
+		"20060132T150405Z", "20240229T000000Z", "20230229T000000Z", "99991231T235959Z", "2006 102T150405Z", "20060102T1504 5Z", "20060102 150405Z", "2006-01-02T15:04:05Z",
+		"20060102T150405ZZ", " 20060102T150405Z", "20060102T150405Z ", "", "Z", "20060102", "20060102T1504Z", "20060102T15.5405Z", "2006010T2150405Z", "20060102T15040.Z", "20060102T1504.5Z",
+		"200601021T50405Z", "２0060102T150405Z"}
+	digitsEtc := []byte("0129TZtz .,:+-\x00")
+	for _, v := range icalValid {
+		emit(hx.L("ical-dec", hx.S(v)))
+	}
+	for _, v := range icalValid[:6] {
+		for _, m := range nearMisses(v, digitsEtc) {
+			emit(hx.L("ical-dec", hx.S(m)))
+		}
+	}
+	for _, v := range append(icalHand, lenient...) {
+		emit(hx.L("ical-dec", hx.S(v)))
+	}
+	httpAlts := []byte("0139 ,:-.GMTUtjJ+\x00")
+	for _, v := range httpValid {
+		emit(hx.L("time-dec", hx.S(v)))
+	}
+	for i, v := range httpValid {
+		if i < 12 || thorough {
+			for _, m := range nearMisses(v, httpAlts) {
+				emit(hx.L("time-dec", hx.S(m)))
+			}
+		}
+	}
+	for _, v := range append(lenient, icalHand...) {
+		emit(hx.L("time-dec", hx.S(v)))
+	}
+	// structured random texts: fields drawn independently, separators perturbed
+	days := []string{"Mon", "Tue", "Sun", "mon", "Monday", "Saturday", "Wednesday", "Xyz", ""}
+	months := []string{"Jan", "Feb", "Dec", "feb", "SEP", "Foo", "May"}
+	zones := []string{"GMT", "UTC", "PST", "GMT+1", "+02", "CEST", "gmt", "", "Z"}
+	num := func(max int, w int) string {
+		v := r.Intn(max)
+		switch r.Intn(12) {
+		case 0:
+			return fmt.Sprintf("%d", v)
+		case 1:
+			return fmt.Sprintf("%0*d", w+1, v)
+		}
+		return fmt.Sprintf("%0*d", w, v)
+	}
+	sp := func() string {
+		switch r.Intn(15) {
+		case 0:
+			return ""
+		case 1:
+			return "  "
+		}
+		return " "
+	}
+	m := n / 2
+	for i := 0; i < m; i++ {
+		var s string
+		switch r.Intn(4) {
+		case 0:
+			s = r.Pick(days) + "," + sp() + num(33, 2) + sp() + r.Pick(months) + sp() + num(10100, 4) + sp() + num(25, 2) + ":" + num(61, 2) + ":" + num(61, 2) + r.Pick([]string{"", "", "", ".5", ",25"}) + sp() + r.Pick(zones)
+		case 1:
+			s = r.Pick(days) + "," + sp() + num(33, 2) + "-" + r.Pick(months) + "-" + r.Pick([]string{num(100, 2), "+5", "-1"}) + sp() + num(25, 2) + ":" + num(61, 2) + ":" + num(61, 2) + sp() + r.Pick(zones)
+		case 2:
+			s = r.Pick(days) + sp() + r.Pick(months) + sp() + r.Pick([]string{num(33, 2), " " + num(10, 1), num(10, 1)}) + sp() + num(25, 2) + ":" + num(61, 2) + ":" + num(61, 2) + sp() + num(10100, 4)
+		default:
+			s = randBytes(r, 30)
+		}
+		emit(hx.L("time-dec", hx.S(s)))
+		var c string
+		switch r.Intn(3) {
+		case 0:
+			c = num(10100, 4) + num(14, 2) + num(33, 2) + r.Pick([]string{"T", "T", "T", "t", " "}) + num(25, 2) + num(61, 2) + num(61, 2) + r.Pick([]string{"Z", "Z", "Z", "", "z", ".5Z"})
+		case 1:
+			c = num(10100, 4) + num(13, 2) + num(29, 2) + "T" + num(24, 2) + num(60, 2) + num(60, 2) + "Z"
+		default:
+			c = randBytes(r, 18)
+		}
+		emit(hx.L("ical-dec", hx.S(c)))
+	}
+}
+
 // ---------------------------------------------------------------- main
 
 func main() {
@@ -420,6 +683,8 @@ func main() {
 	switch *stage {
 	case "small":
 		genSmall(emit, rng, thorough)
+	case "date":
+		genDate(emit, rng, thorough)
 	default:
 		fmt.Fprintln(os.Stderr, "c16: unknown stage", *stage)
 		os.Exit(2)
